@@ -308,7 +308,10 @@ def random_runs(ctx, pool, cov, runs, judge_graphs=False):
         trace = open(rq["out"]).read()
         outs = []
         t = vlib.run_tlc(ctx, "AbsTrace", "AbsTrace.cfg", workers=1, timeout=1800, tag="r%d" % i, files={"trace.ndjson": trace},
-                         on_scn=lambda k, o: outs.append(o), xss="256m")
+                         on_scn=lambda k, o: outs.append(o), xss="256m", heap="3g")
+        if t.status != "ok" and not outs:
+            t = vlib.run_tlc(ctx, "AbsTrace", "AbsTrace.cfg", workers=1, timeout=3000, tag="r%d-again" % i, files={"trace.ndjson": trace},
+                             on_scn=lambda k, o: outs.append(o), xss="1g", heap="8g")
         if t.status != "ok":
             reached = outs[-1]["reached"] if outs else None
             if reached is None:
@@ -327,7 +330,11 @@ def random_runs(ctx, pool, cov, runs, judge_graphs=False):
             nord = otxt.count("\n")
             oouts = []
             o = vlib.run_tlc(ctx, "WalOrderTrace", "WalOrderTrace.cfg", workers=1, timeout=1800, tag="o%d" % i,
-                             files={"order.ndjson": otxt}, on_scn=lambda k, x: oouts.append(x), xss="256m")
+                             files={"order.ndjson": otxt}, on_scn=lambda k, x: oouts.append(x), xss="256m", heap="3g")
+            if o.status != "ok" and not oouts and not o.violated:
+                # the JVM died or ran out of stack / memory (many validations run side by side): once more, alone-sized
+                o = vlib.run_tlc(ctx, "WalOrderTrace", "WalOrderTrace.cfg", workers=1, timeout=3000, tag="o%d-again" % i,
+                                 files={"order.ndjson": otxt}, on_scn=lambda k, x: oouts.append(x), xss="1g", heap="8g")
             if o.status != "ok":
                 reached = oouts[-1]["reached"] if oouts else None
                 olines = otxt.splitlines()
@@ -347,7 +354,7 @@ def random_runs(ctx, pool, cov, runs, judge_graphs=False):
             ng = gtxt.count("\n")
             caps = rq.get("caps") or [9, 290]
             g = vlib.run_tlc(ctx, "TreeTrace", "TreeTrace.cfg", cfg_text=TT_CFG % tuple(caps), workers=1, timeout=3000, tag="g%d" % i,
-                             files={"graphs.ndjson": gtxt}, xss="1g")
+                             files={"graphs.ndjson": gtxt}, xss="1g", heap="4g")
             if g.status != "ok":
                 if g.violated != "AllOK":
                     return ("undecided", i, "TreeTrace: TLC failed\n" + "\n".join(g.out[-20:]))
@@ -355,7 +362,9 @@ def random_runs(ctx, pool, cov, runs, judge_graphs=False):
         st = r.get("stats", {})
         return ("ok" if not bad else "viol", i, dict(stats=st, states=t.distinct, graphs=ng, order=nord, detail=[bad] if bad else None, run=rq))
 
-    with ThreadPoolExecutor(max_workers=min(len(reqs), vlib.NCPU)) as ex:
+    # one JVM per trace: at most half the cores at a time, each with a bounded heap (16 unbounded JVMs next to other jobs
+    # were seen to lose one to memory pressure, which made the whole check Undecided)
+    with ThreadPoolExecutor(max_workers=min(len(reqs), max(2, vlib.NCPU // 2))) as ex:
         outs = list(ex.map(validate, range(len(reqs))))
     for kind, i, info in outs:
         if kind == "undecided":
